@@ -85,7 +85,7 @@ func c15Rewrite(rule, path string) string {
 
 func init() {
 	Register("C15", func(c *Ctx) {
-		c.Out.Rule = "enumeration through the full handler chain against an origin that honours validators (304) and Range (206): methods {GET,HEAD,POST,PUT,DELETE} x body {none, small} x 6 query strings x 3 rewrite rules x added request headers/response headers/query parameters {0,1,2} x upstream Accept-Encoding {unset, snz} x client conditionals {none, If-None-Match match/miss, If-Modified-Since match/miss, Range} x key state {cold, hit, hit-for-pass}; oracle: the origin receives the client's method, body, headers and query with exactly the configured changes (conditionals withheld on a cold cacheable fetch), the client receives the origin's response plus configured headers and a 304 when its validators match, and a follow-up request without conditionals never receives a 304/206 as the resource"
+		c.Out.Rule = "enumeration through the full handler chain against an origin that honours validators (304) and Range (206): methods {GET,HEAD,POST,PUT,DELETE} x body {none, small} x 6 query strings x 3 rewrite rules x added request headers/response headers/query parameters {0,1,2} x upstream Accept-Encoding {unset, snz} x client conditionals {none, If-None-Match match/miss, If-Modified-Since match/miss, Range, matching validator + Range} x key state {cold, hit, hit-for-pass}; oracle: the origin receives the client's method, body, headers and query with exactly the configured changes (conditionals withheld on a cold cacheable fetch), the client receives the origin's response plus configured headers and a 304 when its validators match, and a follow-up request without conditionals never receives a 304/206 as the resource"
 		c.Out.Assume = []string{"fake origin behind the real upstream object (elton's proxy/transport not in the loop; see C19/C16 for the real proxy)"}
 		st := c.Stat("transparency", "enumeration")
 		if !c.Want("transparency") {
@@ -110,6 +110,8 @@ func init() {
 			{"ims-match", http.Header{"If-Modified-Since": {c15LM}}, 304},
 			{"ims-miss", http.Header{"If-Modified-Since": {"Thu, 01 Dec 1990 16:00:00 GMT"}}, 200},
 			{"range", http.Header{"Range": {"bytes=0-3"}}, 0},
+			{"inm-match+range", http.Header{"If-None-Match": {c15ETag}, "Range": {"bytes=0-3"}}, 304}, // (validators are evaluated before Range)
+			{"ims-match+range", http.Header{"If-Modified-Since": {c15LM}, "Range": {"bytes=0-3"}}, 304},
 		}
 		paths := []string{"/api/users/1", "/rest/v1/user/7", "/plain", "/img/cat"}
 		st.Bounds = fmt.Sprintf("5 methods x 2 bodies x %d queries x %d locations x 2 upstream encodings x %d conditionals x 4 key states x %d paths", len(queries), len(locs), len(conds), len(paths))
